@@ -620,7 +620,8 @@ def bitwise_sub_simplifier(a, b):
             # (x + y) - z ==> x + (y - z)
             if len(a.args) == 2:
                 return a.args[0] + (a.args[-1] - b)
-            return a.make_like(a.op, (*a.args[:-1], a.args[-1] - b))
+            # a new expression, not a copy of a: a's own annotations do not belong on it
+            return a.make_like(a.op, (*a.args[:-1], a.args[-1] - b), annotations=())
     elif a is b or (a == b).is_true():
         return claripy.BVV(0, a.size())
     return None
